@@ -620,6 +620,8 @@ fn abs_views(name: &N) -> Value {
         ("ParsedName::from flatten_into", pn_flat.as_slice().to_vec()),
         ("ParsedName::from to_name", pn.to_name::<Vec<u8>>().as_slice().to_vec()),
         ("root-relative rebuild", name.clone().into_relative().into_absolute().map(|n| n.as_slice().to_vec()).unwrap_or_default()),
+        ("uncertain into_absolute", U::from(name.clone()).into_absolute().map(|n| n.as_slice().to_vec()).unwrap_or_default()),
+        ("uncertain as_slice", U::from(name.clone()).as_slice().to_vec()),
     ];
     if let Some(o) = compact::to_octets(name) {
         v.push(("compact serde octets", o.clone()));
@@ -932,6 +934,22 @@ fn shape_wire(input: &Value) -> Value {
         "ua": r3_unc(U::from_octets(aw.clone())),
         "ur": r3_unc(U::from_octets(rw.clone())),
         "fb": r3_rel(NameBuilder::from_builder(rw.clone()).ok().as_ref().map(|b| b.as_slice())),
+        "cn": match N::from_octets(aw.clone()) {
+            Ok(mut n) => {
+                n.make_canonical();
+                let mut c: Vec<u8> = vec![];
+                let _ = n.compose_canonical(&mut c);
+                if c != n.as_slice() { json!(["canonical_forms_differ", 0, 0]) } else { r3_abs(Some(n.as_slice())) }
+            }
+            Err(_) => json!(["err", 0, 1]),
+        },
+        "rcn": match Rn::from_octets(rw.clone()) {
+            Ok(mut n) => {
+                n.make_canonical();
+                r3_rel(Some(n.as_slice()))
+            }
+            Err(_) => json!(["err", 0, 1]),
+        },
         "ria": match Rn::from_octets(rw.clone()) {
             Ok(r) => one(vec![
                 ("into_absolute", r3_abs(r.clone().into_absolute().ok().as_ref().map(|n| n.as_slice()))),
